@@ -83,6 +83,20 @@ var histCount int
 func changeCase(kind string, s txgen.TxSpec, q feegen.Quote, d dest, hyp bool) {
 	tx := txgen.Build(s)
 	fq := q.Build()
+	// every other well-formed case reaches the change operation the way a transaction reaches a wallet: decoded from
+	// the extended format (its unsigned inputs then carry an empty, non-nil unlocking script)
+	histCount++
+	if hyp && histCount%2 == 1 && len(s.Ins) > 0 {
+		ok := true
+		for _, in := range s.Ins {
+			ok = ok && !in.PrevNil
+		}
+		if t2, err := bt.NewTxFromBytes(tx.ExtendedBytes()); ok && err == nil {
+			tx = t2
+			s = txgen.FromTx(tx)
+			kind += "/decoded"
+		}
+	}
 	// every third case the transaction object has a history: while one of its scripts had another size its
 	// size and fee were estimated, then the script was put back (an in-place edit keeping the counts);
 	// the change operation must work on the transaction as it is now
@@ -451,6 +465,30 @@ func main() {
 			}
 		}
 		jobs = append(jobs, job{kind, s, q, d, hyp})
+	}
+	// rates that are not a whole number of satoshis per byte nor a power-of-two fraction (1/49, 31/113, 59/42 ...):
+	// bytes x satoshis / bytes-unit is an exact integer for some sizes and any detour through a rounded per-byte rate
+	// is off by one there; standard and data rates drawn separately
+	oddRates := [][2]int{{1, 49}, {31, 113}, {59, 42}, {2, 7}, {1, 3}, {35, 100}, {7, 13}, {3, 11}}
+	for oi, sr := range oddRates {
+		dr := oddRates[(oi+3)%len(oddRates)]
+		q := feegen.Q(sr[0], sr[1], dr[0], dr[1])
+		for nout := 0; nout <= 3; nout++ {
+			for nin := 1; nin <= 2; nin++ {
+				base := baseTx(r, nin, nout, nout == 2)
+				for di, d := range dests(r, nout) {
+					if di > 2 && (oi+di)%2 == 0 {
+						continue
+					}
+					for _, rel := range []int{2, 3, 5} {
+						s := base
+						s.Ins = append([]txgen.InSpec{}, base.Ins...)
+						name := setAmounts(&s, q, d, rel, r)
+						jobs = append(jobs, job{"odd-rate/" + name, s, q, d, true})
+					}
+				}
+			}
+		}
 	}
 	for i := len(jobs) - 1; i > 0; i-- {
 		j := r.Intn(i + 1)
